@@ -72,6 +72,7 @@ func (c *Ctx) SetProg(p *Prog) {
 	c.Stats["functions_ssa"] += len(p.Fns)
 	c.Stats["repo_functions"] += len(p.RepoFns)
 	c.Stats["callgraph_nodes"] += len(p.CG.Nodes)
+	c.Stats["helpers_interpreted_inline"] += len(inlinableSet)
 }
 
 func (c *Ctx) add(rule, key string, st Status, pos, detail, path string) *Ob {
@@ -277,23 +278,25 @@ func (c *Ctx) writeEvidence(verifDir string, nOK, nKnown, nBad int) {
 		floors[r] = map[string]int{"found": f[0], "floor": f[1]}
 	}
 	cov := map[string]any{
-		"explanation":       c.Explain,
-		"obligations":       len(c.Obs),
-		"discharged":        nOK,
-		"known_findings":    nKnown,
-		"violated":          nBad,
-		"rules":             c.Rules,
-		"analysed":          c.Stats,
-		"floors":            floors,
-		"controls":          c.Controls,
-		"build_configs":     c.Configs,
-		"samples":           samples,
-		"trusted_base":      c.Trusted,
-		"undecided_clauses": c.Undec,
-		"notes":             c.Notes,
-		"exhaustive":        true,
-		"checker_cmd":       "./run.sh " + c.Prop + " " + c.Tier,
-		"evaluations":       len(c.Obs),
+		"explanation":                    c.Explain,
+		"obligations":                    len(c.Obs),
+		"discharged":                     nOK,
+		"known_findings":                 nKnown,
+		"violated":                       nBad,
+		"rules":                          c.Rules,
+		"analysed":                       c.Stats,
+		"floors":                         floors,
+		"controls":                       c.Controls,
+		"build_configs":                  c.Configs,
+		"samples":                        samples,
+		"trusted_base":                   c.Trusted,
+		"undecided_clauses":              c.Undec,
+		"notes":                          c.Notes,
+		"helpers_interpreted_inline":     InlinedHelpers(),
+		"pure_functions_splitting_paths": PureSplit(),
+		"exhaustive":                     true,
+		"checker_cmd":                    "./run.sh " + c.Prop + " " + c.Tier,
+		"evaluations":                    len(c.Obs),
 		"distinct_nontrivial": func() int {
 			return len(c.seen)
 		}(),
